@@ -459,9 +459,52 @@ func checkC03(c *Ctx) error {
 			c03Try(c, src, "nesting:"+name, map[string]interface{}{"gen": "nesting", "source_text": src, "depth": d, "construct": name})
 		}
 	}
+	c03CachedSequence(c)
 	c.extra["hangs_seen"] = atomic.LoadInt32(&c03Hangs)
 	c03Isolated.closeAll()
 	return nil
+}
+
+// c03CachedSequence: with the template cache switched on, a text that does not parse returns its error every time, and
+// the parses that FOLLOW it return too (last phase of the check: what a failed parse left behind would stall everything
+// after it in this process).
+func c03CachedSequence(c *Ctx) {
+	plush.CacheEnabled = true
+	defer func() { plush.CacheEnabled = false }()
+	bad := []string{"<%= ( %>", "<% let = %>", "<%= if (true) { %>x", "<%= \"open %>", "<%= [1, %>", "<% } %>", "<%= f( %>"}
+	ctx := plush.NewContext()
+	ctx.Set("name", "mark")
+	for i, src := range bad {
+		for _, entry := range []string{"Render", "Parse", "BuffaloRenderer"} {
+			c.Eval("cached-sequence:" + entry + ":" + src)
+			c.Rule("cached-sequence")
+			cas := map[string]interface{}{"gen": "cached-sequence", "source_text": src, "entry": entry}
+			first := guardedShort(3*time.Second, func() (string, error) {
+				switch entry {
+				case "Parse":
+					_, err := plush.Parse(src)
+					return "", err
+				case "BuffaloRenderer":
+					return plush.BuffaloRenderer(src, nil, nil)
+				}
+				return plush.Render(src, ctx)
+			})
+			good := fmt.Sprintf("<p><%%= name %%></p><%%# %d %s %%>", i, entry)
+			after := guardedShort(3*time.Second, func() (string, error) { return plush.Render(good, ctx) })
+			again := guardedShort(3*time.Second, func() (string, error) { return plush.Render(src, ctx) })
+			switch {
+			case first.Hang || first.Panic != "":
+				c.Fail("cached:malformed-first", fmt.Sprintf("cache on, %s(%q): %+v, expected a return", entry, src, first), cas)
+				return
+			case after.Hang || after.Panic != "" || after.IsErr || after.Out != "<p>mark</p>":
+				c.Fail("cached:after-failed-parse", fmt.Sprintf("cache on, after %s(%q) failed, Render(%q): %+v, expected \"<p>mark</p>\"", entry, src, good, after), cas)
+				return
+			case again.Hang || again.Panic != "" || (entry == "Render" && (again.IsErr != first.IsErr || again.Err != first.Err || again.Out != first.Out)):
+				c.Fail("cached:malformed-again", fmt.Sprintf("cache on, Render(%q) again: %+v, the first time %+v", src, again, first), cas)
+				return
+			}
+		}
+	}
 }
 
 var parserTokSpelling = map[string]string{
